@@ -34,11 +34,12 @@ class Ghost:
         self.noseg: set[str] = set()  # keys whose writer never created the segment
 
 
-def build_state(ch, statuses, with_bytes: bool, nreaders=None):
+def build_state(ch, statuses, with_bytes: bool, nreaders=None, stale_files=True):
     """An arbitrary state satisfying the representation invariant (assumed, not checked, here)."""
     w = stubs_shm.reset_world()
     now = ch.int("now", 1, None)
     w.now = now
+    w.boot_offset = ch.int("boot_offset", 0, None)  # wall clock minus monotonic clock
     capacity = ch.int("capacity", 1, None)
     mgr = stubs_shm.make_manager(capacity)
     g = Ghost()
@@ -66,7 +67,7 @@ def build_state(ch, statuses, with_bytes: bool, nreaders=None):
         if readers:
             ch.assume(rf > 0)
         delayed = bool(readers) and ch.flag(f"delayed{i}")
-        content = [ch.int(f"b{i}0", 0, 255), ch.int(f"b{i}1", 0, 255)] if with_bytes else [17 + i, 42 + i]
+        content = [ch.int(f"b{i}{k}", 0, 255) for k in range(3)] if with_bytes else [17 + i, 42 + i, 77 + i]
         if st != DS.created:
             g.content[key] = content
         g.shmid[key] = shmid
@@ -86,15 +87,15 @@ def build_state(ch, statuses, with_bytes: bool, nreaders=None):
         # ground truth of segments/files
         if st == DS.created:
             if ch.flag(f"segexists{i}"):
-                w.segs[shmid] = stubs_shm.Buf(size, [0, 0])
+                w.segs[shmid] = stubs_shm.Buf(size, [0, 0, 0])
             else:
                 g.noseg.add(key)  # the writer has not created its segment (yet)
         elif st in (DS.in_memory, DS.paging_out):
             w.segs[shmid] = stubs_shm.Buf(size, content)
-        if st in (DS.created, DS.in_memory, DS.paging_out) and with_bytes and ch.flag(f"stalefile{i}"):
+        if st in (DS.created, DS.in_memory, DS.paging_out) and with_bytes and stale_files and ch.flag(f"stalefile{i}"):
             # page-in never removes the spill file, and a purged key that is written again gets the same shmid:
             # a file with older bytes may be lying around
-            w.files[f"/fake/{shmid}"] = stubs_shm.Buf(ch.int(f"oldsize{i}", 1, None), [ch.int(f"old{i}0", 0, 255), ch.int(f"old{i}1", 0, 255)])
+            w.files[f"/fake/{shmid}"] = stubs_shm.Buf(ch.int(f"oldsize{i}", 1, None), [ch.int(f"old{i}{k}", 0, 255) for k in range(3)])
         elif st in (DS.on_disk, DS.paged_in):
             w.files[f"/fake/{shmid}"] = stubs_shm.Buf(size, content)
     ch.assume(resident <= capacity)
@@ -109,6 +110,15 @@ def build_state(ch, statuses, with_bytes: bool, nreaders=None):
         mgr.free_space = mgr.free_space + mgr.datasets[key].size
         mgr.page_in(key)
     return mgr, w, g
+
+
+def same_content(a, b):
+    if len(a) != len(b):
+        return False
+    for x, y in zip(a, b):
+        if not (x == y):
+            return False
+    return True
 
 
 def check_invariant(mgr, w, g, strong_lock: bool, where: str):
@@ -136,9 +146,8 @@ def check_invariant(mgr, w, g, strong_lock: bool, where: str):
                     continue  # stale allocation whose writer never showed up: being reclaimed
                 raise Violation("segment-missing", f"{where}: {key} is {ds.status.name} but has no segment")
             if key in g.content:
-                d = w.segs[ds.shmid].data
-                c = g.content[key]
-                if not (d[0] == c[0] and d[1] == c[1]):
+                seg = w.segs[ds.shmid]
+                if seg.corrupt or not same_content(seg.data, g.content[key]):
                     raise Violation("bytes-differ", f"{where}: resident bytes of {key} differ from what was written")
         elif ds.status == DS.on_disk:
             if ds.shmid in w.segs:
@@ -147,8 +156,7 @@ def check_invariant(mgr, w, g, strong_lock: bool, where: str):
             if f is None:
                 raise Violation("file-missing", f"{where}: {key} on disk without file")
             if key in g.content:
-                c = g.content[key]
-                if not (f.data[0] == c[0] and f.data[1] == c[1]):
+                if f.corrupt or not same_content(f.data, g.content[key]):
                     raise Violation("bytes-differ", f"{where}: on-disk bytes of {key} differ from what was written")
         if ds.status == DS.created and ds.ongoing_reads:
             raise Violation("reader-before-write-finished", f"{where}: {key}")
@@ -214,9 +222,9 @@ def one_step(ch, mgr, w, g, op: str, tag: str, strong_lock: bool):
         if rdid == "" and ds is not None and ds.status == DS.created:
             # protocol: the writer created the segment and stored its bytes before closing
             if ds.shmid not in w.segs:
-                w.segs[ds.shmid] = stubs_shm.Buf(ds.size, [0, 0])
+                w.segs[ds.shmid] = stubs_shm.Buf(ds.size, [0, 0, 0])
                 g.noseg.discard(key)
-            content = [ch.int(f"{tag}w0", 0, 255), ch.int(f"{tag}w1", 0, 255)]
+            content = [ch.int(f"{tag}w{k}", 0, 255) for k in range(3)]
             w.segs[ds.shmid].data = list(content)
             g.content[key] = content
         was_last = ds is not None and rdid in ds.ongoing_reads and len(ds.ongoing_reads) == 1
@@ -243,6 +251,8 @@ def one_step(ch, mgr, w, g, op: str, tag: str, strong_lock: bool):
         except Exception as e:
             err = type(e).__name__
             shmid = ""
+        if st0 == DS.in_memory and err != "":
+            raise Violation("get-refused-for-readable-dataset", f"{key}: {err}")
         if err == "":
             if st0 != DS.in_memory:
                 raise Violation("get-granted-not-in-memory", f"status was {st0}")
@@ -251,8 +261,7 @@ def one_step(ch, mgr, w, g, op: str, tag: str, strong_lock: bool):
             seg = w.segs.get(shmid)
             if seg is None:
                 raise Violation("get-granted-no-segment")
-            c = g.content[key]
-            if not (seg.data[0] == c[0] and seg.data[1] == c[1]):
+            if seg.corrupt or not same_content(seg.data, g.content[key]):
                 raise Violation("bytes-differ", "get granted with bytes different from what was written")
             if rdid not in ds.ongoing_reads:
                 raise Violation("get-reader-not-registered")
@@ -311,7 +320,7 @@ class ShmStep(Harness):
     outside = [
         "byte-code-level races between the server thread and the disk threads (jobs are atomic here)",
         "more datasets in one state than the bound",
-        "content beyond the first two bytes of a dataset; chunked file reads",
+        "datasets longer than three chunks; partial trailing chunks",
     ]
 
     def __init__(self, name, properties, with_bytes, strong_lock, n_quick, n_thorough, steps_thorough=1):
@@ -351,7 +360,7 @@ class ShmStep(Harness):
             "steps": 1 if tier == "quick" else self.steps_thorough,
             "readers_per_dataset": "0..2",
             "integers": "unbounded (capacity, sizes, clock, reader start times are z3 Int)",
-            "content_bytes": 2 if self.with_bytes else 0,
+            "content": "three 4096-byte chunks per dataset, one symbolic token each" if self.with_bytes else "concrete",
         }
 
     def functions(self):
@@ -359,7 +368,9 @@ class ShmStep(Harness):
 
     def body(self, ch, params):
         statuses = [STATUSES[i] for i in params["statuses"]]
-        mgr, w, g = build_state(ch, statuses, self.with_bytes)
+        # left-over spill files only matter to the operations that touch files or re-create a key
+        stale = any(op in ("wjob", "close", "purge") for op in params["ops"])
+        mgr, w, g = build_state(ch, statuses, self.with_bytes, stale_files=stale)
         install_unlink_monitor(mgr, w)
         for i, op in enumerate(params["ops"]):
             one_step(ch, mgr, w, g, op, f"s{i}", self.strong_lock)
@@ -389,7 +400,13 @@ class ShmLiveness(Harness):
                 if list(sts) != sorted(sts):
                     continue
                 for rds in itertools.product(range(3), repeat=k):
-                    out.append({"statuses": list(sts), "readers": list(rds)})
+                    base = {"statuses": list(sts), "readers": list(rds)}
+                    if sum(rds) >= 3:
+                        from vf.engine_xh import split_prefixes
+
+                        out += [{**base, "_prefix": p} for p in split_prefixes(self.body, base, 4)]
+                    else:
+                        out.append(base)
         return out
 
     def budget(self, tier):
